@@ -395,6 +395,19 @@ def p_validate_loaded(chk: Check) -> None:
         e.contracts[(IO, "_skip_load_validation")] = lambda e2: e2.sym_bool("skip")
         e.contracts[(VAL, "validate_no_duplicates")] = nodup
         e.contracts[(VAL, "validate_temporal_columns")] = temporal
+        # any further validate_* helper of _validation.py the loader may call (e.g. a calendar-range check) gets the generic
+        # contract of a check: it leaves a trace and either returns or refuses the table with a DataLoadError
+        import ast as _ast
+
+        def generic(fname: str) -> Any:
+            def contract(e2: Engine, *a: Any, **k: Any) -> None:
+                e2.effects.append((f"check:{fname}", a[1] if len(a) > 1 else None))
+                if e2.choose(2) == 1:
+                    raise RaiseSignal(e2.instantiate(dle, ["0-3-1-6"], {"name": a[1] if len(a) > 1 else "T"}))
+            return contract
+        for node in _ast.parse(core.src_text(VAL)).body:
+            if isinstance(node, _ast.FunctionDef) and node.name.startswith("validate_") and (VAL, node.name) not in e.contracts:
+                e.contracts[(VAL, node.name)] = generic(node.name)
     skip = eng.sym_bool("skip")
     rowcount = eng.sym_int("rowcount")
     shapes = [["I", "M"], ["M", "I", "I"], ["M", "A"]]
